@@ -1143,7 +1143,7 @@ int hawk_fnc_toupper (hawk_rtx_t* rtx, const hawk_fnc_info_t* fi)
 	{
 		case  HAWK_VAL_BCHR:
 		{
-			hawk_bch_t tmp = HAWK_RTX_GETCHARFROMVAL(rtx, a0);
+			hawk_bch_t tmp = HAWK_RTX_GETBCHRFROMVAL(rtx, a0);
 			tmp = hawk_to_bch_upper(tmp);
 			r = hawk_rtx_makebchrval(rtx, tmp);
 			if (HAWK_UNLIKELY(!r)) return -1;
